@@ -165,6 +165,14 @@ func (f *Frame) callWith(in ssa.Instruction, c *ssa.CallCommon, fv Val, args []V
 	f.callSiteClauses(in, c, args, o, "asserts", ordName)
 	var res Val
 	con := vc.eng.ct.ByKey[key]
+	if len(args) > 0 && args[0].SubOf != "" {
+		// a contract may be specific to the struct field the receiver is embedded in
+		k2 := key + "@" + strings.TrimPrefix(args[0].SubOf, modulePath+"/")
+		if c2 := vc.eng.ct.ByKey[k2]; c2 != nil {
+			con = c2
+			key = k2
+		}
+	}
 	switch {
 	case con != nil && !con.Inline:
 		vc.usedCon[key] = true
@@ -368,6 +376,11 @@ func (f *Frame) applyContract(con *Contract, fn *ssa.Function, c *ssa.CallCommon
 			vc.specError(Clause{File: con.File, Line: con.Line, Src: "modifies " + con.ModifiesSrc[i]}, err)
 		}
 	}
+	for _, m := range con.GMod {
+		if err := f.havocLoc(env, m, o.st); err != nil {
+			vc.specError(Clause{File: con.File, Line: con.Line, Src: "gmodifies " + specString(m)}, err)
+		}
+	}
 	rs := resultVals(vc, sig, "ret."+calleeShortName(c))
 	post := &SpecEnv{vc: vc, vars: map[string]Val{}, cur: o.st, old: pre, pkg: pkg}
 	for k, v := range vars {
@@ -381,6 +394,14 @@ func (f *Frame) applyContract(con *Contract, fn *ssa.Function, c *ssa.CallCommon
 			continue
 		}
 		vc.assume(Implies(o.guard, t), "ensures of "+con.Key+": "+cl.Src)
+	}
+	for _, cl := range con.GEns {
+		t, err := post.evalBool(cl.Expr)
+		if err != nil {
+			vc.specError(cl, err)
+			continue
+		}
+		vc.assume(Implies(o.guard, t), "ghost event of "+con.Key+": "+cl.Src)
 	}
 	return packResults(rs, sig)
 }
@@ -479,6 +500,43 @@ func (e *SpecEnv) locations(m SExpr) []location {
 		fa := vc.fieldAddr(x, s, skey, i)
 		return vc.objectLocs(fa, s.Field(i).Type())
 	case SCall:
+		if ms, ok := vc.eng.ct.ModSets[n.Fn]; ok {
+			if len(ms.Params) != len(n.Args) {
+				e.fail("modset %s expects %d arguments", n.Fn, len(ms.Params))
+			}
+			vars := map[string]Val{}
+			for i, a := range n.Args {
+				vars[ms.Params[i]] = e.Eval(a)
+			}
+			ne := *e
+			ne.vars = vars
+			ne.f = nil
+			if pk := vc.eng.pkgByPath(ms.PkgPath); pk != nil {
+				ne.pkg = pk
+			}
+			var out []location
+			for _, it := range ms.Items {
+				out = append(out, ne.locations(it)...)
+			}
+			return out
+		}
+		if p, ok := vc.eng.ct.Preds[n.Fn]; ok {
+			// a pred used as a location macro: expand and take the locations of its body
+			if len(p.Params) != len(n.Args) {
+				e.fail("pred %s expects %d arguments", n.Fn, len(p.Params))
+			}
+			vars := map[string]Val{}
+			for i, a := range n.Args {
+				vars[p.Params[i]] = e.Eval(a)
+			}
+			ne := *e
+			ne.vars = vars
+			ne.f = nil
+			if pk := vc.eng.pkgByPath(p.PkgPath); pk != nil {
+				ne.pkg = pk
+			}
+			return ne.locations(p.Body)
+		}
 		switch n.Fn {
 		case "all":
 			x := e.Eval(n.Args[0])
